@@ -11,7 +11,7 @@
        <<"resp", c, kind, q>>   the responder for call c ran at peer q (it received kind)
        <<"fire", c, cls, v>>    the Deferred returned by callRemote number c fired: cls = "OK"
                                  (v = the id echoed in the response), "DeclErr" (v = id carried by
-                                 the declared error), "UnknownRemoteError" (v = 0), or the class of the
+                                 the declared error), "UnknownRemoteError" (v = 0), or "FatalErr" (declared fatal error, v = id), or the class of the
                                  connection-loss reason (v = peer to whose connectionLost it was given)
        <<"wr", p, "", size>>    p's protocol finished writing one complete box of size bytes to its transport
        <<"lose", p, "", 0>>     p's transport.loseConnection() was called
@@ -33,16 +33,24 @@ EXTENDS Naturals, Integers, Sequences, FiniteSets
 Peers == {1, 2}
 Other(p) == 3 - p
 
-Kinds == {"NowOk", "NowDecl", "NowUndecl", "LaterOk", "LaterDecl", "LaterUndecl", "Never"}
-IsLater(k) == k \in {"LaterOk", "LaterDecl", "LaterUndecl"}
-IsNow(k) == k \in {"NowOk", "NowDecl", "NowUndecl"}
-MsgOf(k) == IF k \in {"NowOk", "LaterOk"} THEN "ans"
-            ELSE IF k \in {"NowDecl", "LaterDecl"} THEN "err" ELSE "qerr"
+(* responder kinds = when x how:  Now / Later  x  Ok | Decl (raises exactly a class declared in Command.errors) |
+   DeclSub (raises a strict SUBCLASS of it) | Fatal / FatalSub (the same for Command.fatalErrors) | Undecl;  and Never. *)
+Outcomes == {"Ok", "Decl", "DeclSub", "Fatal", "FatalSub", "Undecl"}
+Kinds == {"Now" \o o : o \in Outcomes} \cup {"Later" \o o : o \in Outcomes} \cup {"Never"}
+IsLater(k) == k \in {"Later" \o o : o \in Outcomes}
+IsNow(k) == k \in {"Now" \o o : o \in Outcomes}
+OutcomeOf(k) == IF k = "Never" THEN "None" ELSE CHOOSE o \in Outcomes : k \in {"Now" \o o, "Later" \o o}
+(* what goes on the wire: an answer, an error box with a declared code, a connection-ending error box with a
+   declared code (fatal), or a connection-ending error box with the unknown-error code *)
+MsgOf(k) == LET o == OutcomeOf(k) IN
+            IF o = "Ok" THEN "ans" ELSE IF o \in {"Decl", "DeclSub"} THEN "err"
+            ELSE IF o \in {"Fatal", "FatalSub"} THEN "ferr" ELSE "qerr"
 
 VARIABLES cfg,     \* [wac |-> BOOLEAN]
           ncall,   \* number of callRemote calls made
           caller,  \* caller[c]
           kind,    \* kind[c]: how the responder for c behaves
+          re,      \* re[c]: the caller's errback for c, when it receives a connection-loss reason, issues a NEW callRemote re-entrantly
           cst,     \* cst[c] \in {"pending", "fired"}
           res,     \* res[c] = <<cls, v>> the Deferred fired with (<<"", 0>> while pending)
           nfire,   \* nfire[c] = how many times it fired (history)
@@ -54,11 +62,11 @@ VARIABLES cfg,     \* [wac |-> BOOLEAN]
           why,     \* why[p] = class of the reason given to p's connectionLost ("" before)
           last
 
-vars == <<cfg, ncall, caller, kind, cst, res, nfire, rst, pipe, off, ts, net, why, last>>
+vars == <<cfg, ncall, caller, kind, re, cst, res, nfire, rst, pipe, off, ts, net, why, last>>
 
 InitWith(c) ==
     /\ cfg = c /\ ncall = 0
-    /\ caller = <<>> /\ kind = <<>> /\ cst = <<>> /\ res = <<>> /\ nfire = <<>> /\ rst = <<>>
+    /\ caller = <<>> /\ kind = <<>> /\ re = <<>> /\ cst = <<>> /\ res = <<>> /\ nfire = <<>> /\ rst = <<>>
     /\ pipe = [p \in Peers |-> <<>>] /\ off = [p \in Peers |-> 0]
     /\ ts = [p \in Peers |-> "open"] /\ net = "up" /\ why = [p \in Peers |-> ""]
     /\ last = [e |-> "init", obs |-> <<>>]
@@ -82,17 +90,18 @@ Emit(R, p, t, c) ==
          [R EXCEPT !.obs = Append(@, <<"wr", p, "", sz>>), !.wi = @ + 1,
                    !.pipe[p] = IF keep THEN Append(@, [sz |-> sz, t |-> t, c |-> c]) ELSE @]
 
-(* the answer to an undeclared error.  The property only says the caller gets UnknownRemoteError; whether the
-   responding side also closes the connection afterwards (amp.py does: QuitBox) is left free -- R.qc. *)
-EmitQuit(R, p, c) ==
+(* the answer to an undeclared error or to a declared FATAL error.  The property only says what the caller gets;
+   whether the responding side also closes the connection afterwards (amp.py does: QuitBox) is left free -- R.qc. *)
+EmitQuit(R, p, t, c) ==
     IF R.ts[p] = "lost" THEN R
-    ELSE LET R1 == Emit(R, p, "qerr", c) IN
+    ELSE LET R1 == Emit(R, p, t, c) IN
          IF R.qc THEN [R1 EXCEPT !.obs = Append(@, <<"lose", p, "", 0>>),
                                  !.ts[p] = IF @ = "open" THEN "closing" ELSE @]
          ELSE R1
 
 Respond(R, q, c) ==      \* the responder's result for call c becomes available at q
-    LET R1 == IF MsgOf(kind[c]) = "qerr" THEN EmitQuit(R, q, c) ELSE Emit(R, q, MsgOf(kind[c]), c) IN
+    LET R1 == IF MsgOf(kind[c]) \in {"qerr", "ferr"} THEN EmitQuit(R, q, MsgOf(kind[c]), c)
+              ELSE Emit(R, q, MsgOf(kind[c]), c) IN
     [R1 EXCEPT !.rst[c] = "answered"]
 
 FireWith(R, c, cls, v) ==
@@ -106,25 +115,46 @@ Dispatch(R, q, msg) ==
          IF IsNow(kind[msg.c]) THEN Respond(R1, q, msg.c)
          ELSE [R1 EXCEPT !.rst[msg.c] = "running"]
     ELSE IF msg.t = "ans" THEN FireWith(R, msg.c, "OK", msg.c)
-    ELSE IF msg.t = "err" THEN FireWith(R, msg.c, "DeclErr", msg.c)
+    ELSE IF msg.t = "err" THEN FireWith(R, msg.c, "DeclErr", msg.c)         \* the DECLARED class, also for a subclass
+    ELSE IF msg.t = "ferr" THEN FireWith(R, msg.c, "FatalErr", msg.c)
     ELSE FireWith(R, msg.c, "UnknownRemoteError", 0)
 
 RECURSIVE DispatchAll(_, _, _)
 DispatchAll(R, q, msgs) == IF msgs = <<>> THEN R ELSE DispatchAll(Dispatch(R, q, Head(msgs)), q, Tail(msgs))
 
 -----------------------------------------------------------------------------
-(* callRemote number ncall+1, by p, of a command whose responder behaves as k *)
-Call(p, k, ws) ==
+(* callRemote number ncall+1, by p, of a command whose responder behaves as k; f = this call's errback re-enters
+   callRemote when it is handed a connection-loss reason.  On an open/closing connection the ask box is written. *)
+CallLive(p, k, f, ws) ==
+    /\ ts[p] # "lost"
     /\ LET c == ncall + 1
            R0 == [Pack(ws, FALSE) EXCEPT !.cst = Append(@, "pending"), !.res = Append(@, <<"", 0>>),
                                   !.nfire = Append(@, 0), !.rst = Append(@, "none")] IN
-       \E R \in {IF ts[p] = "lost" THEN FireWith(R0, c, why[p], p)       \* fails immediately
-                 ELSE Emit(R0, p, "ask", c)} :                           \* (\E over a singleton: evaluated once)
+       \E R \in {Emit(R0, p, "ask", c)} :                                \* (\E over a singleton: evaluated once)
        /\ Unpack(R)
        /\ last' = [e |-> "call", obs |-> R.obs]
     /\ ncall' = ncall + 1
-    /\ caller' = Append(caller, p) /\ kind' = Append(kind, k)
+    /\ caller' = Append(caller, p) /\ kind' = Append(kind, k) /\ re' = Append(re, f)
     /\ UNCHANGED <<cfg, off, net, why>>
+
+(* After the loss the call fails at once with the reason given to p; if its errback re-enters callRemote (f), that
+   nested call -- number ncall+2, never re-entering itself -- fails at once too, inside the first one's errback.    *)
+CallLost(p, k, f) ==
+    /\ ts[p] = "lost"
+    /\ LET n == IF f THEN 2 ELSE 1
+           c == ncall + 1 IN
+       /\ ncall' = ncall + n
+       /\ caller' = caller \o [i \in 1..n |-> p]
+       /\ kind' = kind \o (IF f THEN <<k, "NowOk">> ELSE <<k>>)
+       /\ re' = re \o (IF f THEN <<TRUE, FALSE>> ELSE <<FALSE>>)
+       /\ cst' = cst \o [i \in 1..n |-> "fired"]
+       /\ res' = res \o [i \in 1..n |-> <<why[p], p>>]
+       /\ nfire' = nfire \o [i \in 1..n |-> 1]
+       /\ rst' = rst \o [i \in 1..n |-> "none"]
+       /\ last' = [e |-> "call", obs |-> [i \in 1..n |-> <<"fire", ncall + i, why[p], p>>]]
+    /\ UNCHANGED <<cfg, pipe, off, ts, net, why>>
+
+Call(p, k, f, ws) == CallLive(p, k, f, ws) \/ CallLost(p, k, f)
 
 RECURSIVE SumSz(_)
 SumSz(ms) == IF ms = <<>> THEN 0 ELSE ms[1].sz + SumSz(Tail(ms))
@@ -146,7 +176,7 @@ Deliver(p, n, ws, qc) ==
        /\ Unpack(R)
        /\ off' = [off EXCEPT ![p] = b - SumSz(done)]
        /\ last' = [e |-> "deliver", obs |-> R.obs]
-    /\ UNCHANGED <<cfg, ncall, caller, kind, net, why>>
+    /\ UNCHANGED <<cfg, ncall, caller, kind, re, net, why>>
 
 (* the scheduler fires the Deferred a Later responder returned for call c *)
 Fire(c, ws, qc) ==
@@ -154,21 +184,21 @@ Fire(c, ws, qc) ==
     /\ \E R \in {Respond(Pack(ws, qc), Other(caller[c]), c)} :
        /\ Unpack(R)
        /\ last' = [e |-> "fire", obs |-> R.obs]
-    /\ UNCHANGED <<cfg, ncall, caller, kind, off, net, why>>
+    /\ UNCHANGED <<cfg, ncall, caller, kind, re, off, net, why>>
 
 (* application code calls p.transport.loseConnection() *)
 UserClose(p) ==
     /\ ts[p] # "lost"
     /\ ts' = [ts EXCEPT ![p] = IF @ = "open" THEN "closing" ELSE @]
     /\ last' = [e |-> "close", obs |-> << <<"lose", p, "", 0>> >>]
-    /\ UNCHANGED <<cfg, ncall, caller, kind, cst, res, nfire, rst, pipe, off, net, why>>
+    /\ UNCHANGED <<cfg, ncall, caller, kind, re, cst, res, nfire, rst, pipe, off, net, why>>
 
 (* the network dies: everything in flight is gone *)
 Drop ==
     /\ net = "up"
     /\ net' = "down"
     /\ last' = [e |-> "drop", obs |-> <<>>]
-    /\ UNCHANGED <<cfg, ncall, caller, kind, cst, res, nfire, rst, pipe, off, ts, why>>
+    /\ UNCHANGED <<cfg, ncall, caller, kind, re, cst, res, nfire, rst, pipe, off, ts, why>>
 
 CanNotify(p, r) ==
     /\ ts[p] # "lost"
@@ -178,32 +208,43 @@ CanNotify(p, r) ==
 
 Pending(p) == {c \in 1..ncall : caller[c] = p /\ cst[c] = "pending"}
 
-(* connectionLost(reason r) is delivered to p: every pending call of p fails with that reason.
-   The order of the failures is not part of the property: ord is any enumeration of Pending(p). *)
+(* connectionLost(reason r) is delivered to p: every pending call of p fails with that reason.  The order of the
+   failures is not part of the property: ord is any enumeration of Pending(p).  A failing call whose errback re-enters
+   callRemote (re[c]) makes a NEW call inside its errback; the connection is lost, so that call fails at once with the
+   same reason (observed right after its parent's failure); new calls are numbered in the order they are made.      *)
+RECURSIVE NotifyObs(_, _, _, _)
+NotifyObs(ord, next, r, p) ==
+    IF ord = <<>> THEN <<>>
+    ELSE IF re[ord[1]] THEN << <<"fire", ord[1], r, p>>, <<"fire", next, r, p>> >> \o NotifyObs(Tail(ord), next + 1, r, p)
+    ELSE << <<"fire", ord[1], r, p>> >> \o NotifyObs(Tail(ord), next, r, p)
+
 Notify(p, r, ord) ==
     /\ CanNotify(p, r)
     /\ Len(ord) = Cardinality(Pending(p)) /\ {ord[i] : i \in 1..Len(ord)} = Pending(p)
-    /\ cst' = [c \in 1..ncall |-> IF c \in Pending(p) THEN "fired" ELSE cst[c]]
-    /\ res' = [c \in 1..ncall |-> IF c \in Pending(p) THEN <<r, p>> ELSE res[c]]
-    /\ nfire' = [c \in 1..ncall |-> IF c \in Pending(p) THEN nfire[c] + 1 ELSE nfire[c]]
+    /\ LET n == Cardinality({c \in Pending(p) : re[c]}) IN
+       /\ ncall' = ncall + n
+       /\ caller' = caller \o [i \in 1..n |-> p]
+       /\ kind' = kind \o [i \in 1..n |-> "NowOk"]
+       /\ re' = re \o [i \in 1..n |-> FALSE]
+       /\ cst' = [c \in 1..ncall |-> IF c \in Pending(p) THEN "fired" ELSE cst[c]] \o [i \in 1..n |-> "fired"]
+       /\ res' = [c \in 1..ncall |-> IF c \in Pending(p) THEN <<r, p>> ELSE res[c]] \o [i \in 1..n |-> <<r, p>>]
+       /\ nfire' = [c \in 1..ncall |-> IF c \in Pending(p) THEN nfire[c] + 1 ELSE nfire[c]] \o [i \in 1..n |-> 1]
+       /\ rst' = rst \o [i \in 1..n |-> "none"]
     /\ ts' = [ts EXCEPT ![p] = "lost"]
     /\ why' = [why EXCEPT ![p] = r]
-    /\ last' = [e |-> "notify", obs |-> [i \in 1..Len(ord) |-> <<"fire", ord[i], r, p>>]]
-    /\ UNCHANGED <<cfg, ncall, caller, kind, rst, pipe, off, net>>
+    /\ last' = [e |-> "notify", obs |-> NotifyObs(ord, ncall + 1, r, p)]
+    /\ UNCHANGED <<cfg, pipe, off, net>>
 
 -----------------------------------------------------------------------------
 (* The property *)
 Calls == 1..ncall
-Outcome(k) == IF k \in {"NowOk", "LaterOk"} THEN "Ok"
-              ELSE IF k \in {"NowDecl", "LaterDecl"} THEN "Decl"
-              ELSE IF k \in {"NowUndecl", "LaterUndecl"} THEN "Undecl" ELSE "None"
-
 ExactlyOnce == \A c \in Calls : nfire[c] <= 1 /\ (nfire[c] = 1 <=> cst[c] = "fired")
 (* a fired Deferred carries its OWN command's response / error, or the loss reason given to its own peer *)
 OwnResult == \A c \in Calls : cst[c] = "fired" =>
-    \/ res[c] = <<"OK", c>> /\ Outcome(kind[c]) = "Ok" /\ rst[c] = "answered"
-    \/ res[c] = <<"DeclErr", c>> /\ Outcome(kind[c]) = "Decl" /\ rst[c] = "answered"
-    \/ res[c] = <<"UnknownRemoteError", 0>> /\ Outcome(kind[c]) = "Undecl" /\ rst[c] = "answered"
+    \/ res[c] = <<"OK", c>> /\ OutcomeOf(kind[c]) = "Ok" /\ rst[c] = "answered"
+    \/ res[c] = <<"DeclErr", c>> /\ OutcomeOf(kind[c]) \in {"Decl", "DeclSub"} /\ rst[c] = "answered"
+    \/ res[c] = <<"FatalErr", c>> /\ OutcomeOf(kind[c]) \in {"Fatal", "FatalSub"} /\ rst[c] = "answered"
+    \/ res[c] = <<"UnknownRemoteError", 0>> /\ OutcomeOf(kind[c]) = "Undecl" /\ rst[c] = "answered"
     \/ res[c] = <<why[caller[c]], caller[c]>> /\ ts[caller[c]] = "lost"
 (* nothing stays pending once the caller's connection is lost (unanswered calls fail at disconnect, later calls at once) *)
 NonePendingAfterLoss == \A c \in Calls : ts[caller[c]] = "lost" => cst[c] = "fired"
